@@ -6,14 +6,14 @@ def run(ctx):
     run_c07(ctx)
     # the table quantities the sector formula consumes — ω(g) of every subset, dod and L of the whole graph — are the statement's
     # (restated from C03-a/b/f: an error in them changes the exponents 1/ω(g_j) and the rescaling root)
-    from .kernels import graph_dod_clause, gdod_clause, run_c03_loops, builder_roles, guarded_clause
+    from .kernels import graph_dod_clause, gdod_clause, run_c03_loops, builder_roles, restated_clause
     from ..roles import RoleLost
     ctx.rule("C07-d", "ω(g) = [g≠∅]·(Σ_{e∈g} w_e − ℓ(g)·D/2 − [spanning(g)]·dod) + [g=∅]·1 with ℓ the Euler sum over components (0 for ∅), "
                       "dod = Σ w − L·D/2, L = ℓ(all edges)")
     try:
         bs, fg, tb, jrec = builder_roles(ctx)
     except RoleLost as e:
-        return ctx.lost("C07-d", str(e))
-    guarded_clause(ctx, "C07-d", tb.path, "generalized-dod", lambda: gdod_clause(ctx, "C07-d", tb))
-    guarded_clause(ctx, "C07-d", fg.path, "graph-dod", lambda: graph_dod_clause(ctx, "C07-d"))
-    run_c03_loops(ctx, "C07-d")
+        return ctx.note("C07-d: restated clauses skipped — %s; the owning rules report it" % e)
+    restated_clause(ctx, "C07-d", tb.path, "generalized-dod", lambda: gdod_clause(ctx, "C07-d", tb))
+    restated_clause(ctx, "C07-d", fg.path, "graph-dod", lambda: graph_dod_clause(ctx, "C07-d"))
+    run_c03_loops(ctx, "C07-d", soft=True)
